@@ -52,6 +52,13 @@ theorem tombstone_threshold (s : Nat) (hs : 1 ≤ s ∧ s ≤ 8) :
     minTombstone s = 2 ^ (8 * s) - 2 ∧ minTombstone s = tombstone s :=
   ⟨minTombstone_eq s hs, minTombstone_spec s hs⟩
 
+/-- the address helpers of `ReaderAddress for u64`, exactly: `wrapping_add_sized` is the sum modulo
+`2^(8·size)`, `add_sized` is the sum when it is a `size`-byte address and `AddressOverflow` otherwise -/
+theorem address_arithmetic (a len s : Nat) (hs : s ≤ 8) :
+    wrappingAddSized a len s = (a + len) % 2 ^ (8 * s) ∧
+    addSized a len s = (if a + len < 2 ^ (8 * s) then .ok (a + len) else .err .rAddressOverflow) :=
+  ⟨wrappingAddSized_eq a len s hs, addSized_eq a len s hs⟩
+
 /-! ## "Raw iteration exposes every encoded entry unchanged" -/
 
 /-- **Raw round trip.** For every well-formed list `l` (every entry kind of the family and format,
@@ -176,9 +183,10 @@ theorem addr_table_is_spec_table (c : Cfg) (sec : Bytes) (base i : Nat) (hs : Va
 /-- **`die_ranges` / `unit_ranges`, no `DW_AT_ranges`.** For a DIE whose `DW_AT_low_pc` is an
 address, whose `DW_AT_high_pc` is an address or a constant (`Benign`; anything else is skipped) the
 result is the single range `low_pc .. high_pc`, or `low_pc .. low_pc + size` for a constant
-`DW_AT_high_pc` — an `AddressOverflow` error when that sum leaves 64 bits, never a wrapped end;
-nothing without `DW_AT_low_pc` or without `DW_AT_high_pc`. (Later duplicates override earlier
-ones.) -/
+`DW_AT_high_pc` — an `AddressOverflow` error when that sum leaves 64 bits, never a wrapped end —
+kept (`keepSingle`) exactly when it is non-empty and begins below the tombstones, as for a range
+list entry; nothing without `DW_AT_low_pc` or without `DW_AT_high_pc`. (Later duplicates override
+earlier ones.) -/
 theorem die_ranges_cases (u : UnitCtx) (secs : Sections) (attrs : Attrs)
     (hb : ∀ a ∈ attrs, Benign a) :
     dieRangesCore u secs attrs =
@@ -187,8 +195,10 @@ theorem die_ranges_cases (u : UnitCtx) (secs : Sections) (attrs : Attrs)
       | none => .ok (.single none)
       | some b =>
         match acc.size with
-        | some sz => if 2 ^ 64 ≤ b + sz then .err .rAddressOverflow else .ok (.single (some (b, b + sz)))
-        | none => .ok (.single (acc.highPc.map fun e => (b, e))) :=
+        | some sz =>
+          if 2 ^ 64 ≤ b + sz then .err .rAddressOverflow
+          else .ok (.single (keepSingle u.cfg.addrSize (some (b, b + sz))))
+        | none => .ok (.single (keepSingle u.cfg.addrSize (acc.highPc.map fun e => (b, e)))) :=
   dieRangesCore_single u secs attrs hb
 
 /-- **`DW_AT_ranges` wins**: the first `DW_AT_ranges` that designates a list (a section offset, or
@@ -200,22 +210,34 @@ theorem die_ranges_ranges_wins (u : UnitCtx) (secs : Sections) (pre post : Attrs
       (do let evs ← unitRangesAt u secs o; pure (.list evs)) :=
   dieRangesCore_ranges_wins u secs pre post v o hb ho
 
+/-- the filter on the single range: exactly the ranges that are non-empty and start below the
+tombstone threshold of the unit's address size survive, unchanged -/
+theorem keep_single_iff (s : Nat) (r : Option (Nat × Nat)) (b e : Nat) :
+    keepSingle s r = some (b, e) ↔ r = some (b, e) ∧ b < e ∧ b < minTombstone s := by
+  constructor
+  · exact keepSingle_some s r b e
+  · rintro ⟨rfl, h1, h2⟩
+    simp [keepSingle, h1, h2]
+
 /-- the usual shapes, spelled out -/
 theorem die_ranges_low_high_addr (u : UnitCtx) (secs : Sections) (b e : Nat) :
-    dieRangesCore u secs [(.lowPc, .addr b), (.highPc, .addr e)] = .ok (.single (some (b, e))) := by
+    dieRangesCore u secs [(.lowPc, .addr b), (.highPc, .addr e)] =
+      .ok (.single (if b < minTombstone u.cfg.addrSize ∧ b < e then some (b, e) else none)) := by
   rw [die_ranges_cases u secs _ (by simp [Benign])]; rfl
 
 theorem die_ranges_low_size (u : UnitCtx) (secs : Sections) (b sz : Nat) :
     dieRangesCore u secs [(.lowPc, .addr b), (.highPc, .udata sz)] =
-      if 2 ^ 64 ≤ b + sz then .err .rAddressOverflow else .ok (.single (some (b, b + sz))) := by
+      if 2 ^ 64 ≤ b + sz then .err .rAddressOverflow
+      else .ok (.single (if b < minTombstone u.cfg.addrSize ∧ b < b + sz then some (b, b + sz) else none)) := by
   rw [die_ranges_cases u secs _ (by simp [Benign])]; rfl
 
 /-- indexed `DW_AT_low_pc` (`DW_FORM_addrx`): the address-table entry of the unit -/
 theorem die_ranges_lowx_size (u : UnitCtx) (secs : Sections) (i b sz : Nat)
     (hi : getAddress u.cfg secs.debugAddr u.addrBase i = .ok b) :
     dieRangesCore u secs [(.lowPc, .addrx i), (.highPc, .udata sz)] =
-      if 2 ^ 64 ≤ b + sz then .err .rAddressOverflow else .ok (.single (some (b, b + sz))) := by
-  simp only [dieRangesCore, dieRangesLoop, attrAddress, hi, Out.bind_ok, Out.pure_eq]
+      if 2 ^ 64 ≤ b + sz then .err .rAddressOverflow
+      else .ok (.single (if b < minTombstone u.cfg.addrSize ∧ b < b + sz then some (b, b + sz) else none)) := by
+  simp only [dieRangesCore, dieRangesLoop, attrAddress, hi, Out.bind_ok, Out.pure_eq, keepSingle]
 
 /-- `attr_ranges_offset`: a section offset is used as it is — except in a GNU split-DWARF v4
 `.dwo` file, where it is relative to `DW_AT_GNU_ranges_base` — and an index goes through the offset
@@ -245,23 +267,54 @@ theorem dwo_base_rules (c : Cfg) (dwo : Bool) (secs : Sections) :
     simp [defaultListsBase, this]
   · intro h; simp only [defaultListsBase, h, and_self, if_true]; cases c.format <;> rfl
 
-/-- **Recorded finding C08-1** (`known_findings.d/C08.json`): the single `low_pc .. high_pc` range
-of `die_ranges` / `unit_ranges` is NOT filtered, so the third sentence of C08 fails for it: here a
-DIE whose code was discarded by the linker (`DW_AT_low_pc = -1`, size 0) yields the empty range
-`[2^64-1, 2^64-1)` at the tombstone address. -/
-theorem die_ranges_single_unfiltered_partial :
-    ∃ (u : UnitCtx) (secs : Sections) (attrs : Attrs) (it : Item),
-      dieRanges u secs attrs = .ok [.item it] ∧ ¬ (it.b < it.e) ∧ ¬ (it.b < minTombstone u.cfg.addrSize) :=
-  ⟨⟨⟨.little, .dwarf32, 4, 8⟩, false, 0, 0, 0, 0⟩, ⟨[], [], [], [], []⟩,
-    [(.lowPc, .addr (2 ^ 64 - 1)), (.highPc, .udata 0)], ⟨2 ^ 64 - 1, 2 ^ 64 - 1, []⟩,
-    by decide, by decide, by decide⟩
+/-- **base rules, any root DIE**: a unit's `addr_base` / `rnglists_base` / `loclists_base` is the
+value of the last `DW_AT_addr_base`|`DW_AT_GNU_addr_base` / `DW_AT_rnglists_base`|`DW_AT_GNU_ranges_base`
+/ `DW_AT_loclists_base` attribute given as a section offset, and otherwise 0 resp. the default of
+`dwo_base_rules` -/
+theorem unit_bases_rules (c : Cfg) (dwo : Bool) (secs : Sections) (root : Attrs) (u : UnitCtx)
+    (h : unitBases c dwo secs root = .ok u) :
+    u.addrBase = (lastSec .addrBase root).getD 0 ∧
+    u.rnglistsBase = (lastSec .rnglistsBase root).getD (defaultListsBase c dwo) ∧
+    u.loclistsBase = (lastSec .loclistsBase root).getD (defaultListsBase c dwo) ∧
+    u.cfg = c ∧ u.dwo = dwo :=
+  unitBases_bases c dwo secs root u h
 
-/-- everything `die_ranges` yields THROUGH A LIST is non-empty and below the tombstones (the full
-statement — every range `die_ranges` yields — is false, see `die_ranges_single_unfiltered_partial`) -/
-theorem die_ranges_list_nonempty_partial (u : UnitCtx) (secs : Sections) (attrs : Attrs)
-    (evs : List (Ev Item)) (h : dieRangesCore u secs attrs = .ok (.list evs)) :
+/-- **Every range `die_ranges` / `unit_ranges` yields is non-empty and begins below the
+tombstones** — through a range list (`DW_AT_ranges`) and as the single `low_pc .. high_pc` range
+alike, for every DIE, unit, section contents and configuration. (Holds on the tree with the `fix:`
+acb6706 for finding C08-1; before it the single range was yielded unfiltered, e.g.
+`DW_AT_low_pc = -1`, `DW_AT_high_pc = 0` yielded `[2^64-1, 2^64-1)`.) -/
+theorem die_ranges_nonempty (u : UnitCtx) (secs : Sections) (attrs : Attrs) (evs : List (Ev Item))
+    (h : dieRanges u secs attrs = .ok evs) :
     ∀ it, Ev.item it ∈ evs → it.b < it.e ∧ it.b < minTombstone u.cfg.addrSize :=
-  dieRangesCore_list_items u secs attrs evs h
+  dieRanges_items u secs attrs evs h
+
+/-- the former witness of C08-1 now yields nothing -/
+example : dieRanges ⟨⟨.little, .dwarf32, 4, 8⟩, false, 0, 0, 0, 0⟩ ⟨[], [], [], [], []⟩
+    [(.lowPc, .addr (2 ^ 64 - 1)), (.highPc, .udata 0)] = .ok [] := by decide
+
+/-- `die_ranges` / `unit_ranges` return a value or an error for every DIE, unit and section
+contents (no panic, no non-termination) -/
+theorem die_ranges_total (u : UnitCtx) (secs : Sections) (attrs : Attrs) :
+    (dieRangesCore u secs attrs).Normal :=
+  dieRangesCore_normal u secs attrs
+
+/-- everything `attr_locations` yields (location lists reached from a `DW_AT_location`-like
+attribute, `.dwo` dispatch included) is non-empty and begins below the tombstones -/
+theorem attr_locations_nonempty (u : UnitCtx) (secs : Sections) (v : AttrVal) (evs : List (Ev Item))
+    (h : attrLocations u secs v = .ok (some evs)) :
+    ∀ it, Ev.item it ∈ evs → it.b < it.e ∧ it.b < minTombstone u.cfg.addrSize :=
+  attrLocations_items u secs v evs h
+
+/-- a split unit inherits `low_pc` and `addr_base` from its skeleton unit, and the ranges base only
+in GNU split DWARF (version < 5) -/
+theorem copy_relocated_rules (self other : UnitCtx) :
+    (copyRelocated self other).lowPc = other.lowPc ∧
+    (copyRelocated self other).addrBase = other.addrBase ∧
+    (copyRelocated self other).loclistsBase = self.loclistsBase ∧
+    (copyRelocated self other).rnglistsBase =
+      (if self.cfg.version < 5 then other.rnglistsBase else self.rnglistsBase) :=
+  ⟨rfl, rfl, rfl, rfl⟩
 
 /-! ## totality and termination within the input length -/
 
